@@ -78,7 +78,12 @@ struct Exec {
 		w.padA = plan.envu("pad_a", 0);
 		w.padB = plan.envu("pad_b", 0);
 		for (auto& l : plan.world) {
-			if (l.verb == "src") w.S = structuredBytes(l.u("cseed"), static_cast<size_t>(l.u("len")));
+			if (l.verb == "src") {
+				w.S = structuredBytes(l.u("cseed"), static_cast<size_t>(l.u("len")));
+				// nonul: NUL bytes only every `nonul` bytes, so bounded string reads of several KiB meet their bound, not a terminator
+				uint64_t gap = l.u("nonul", 0);
+				if (gap) for (size_t i = 0; i < w.S.size(); ++i) if (w.S[i] == 0 && (i + 1) % gap != 0) w.S[i] = 0x41;
+			}
 		}
 		for (auto& l : plan.world) {
 			if (l.verb != "rec") continue;
@@ -576,6 +581,7 @@ struct StreamActors : Family {
 		p.setenv("memcap", 16 << 20);
 		Line src = mkline("world", "src");
 		src.set("cseed", hex64(r.next())).set("len", len);
+		if (!c13 && len > 3000 && r.chance(1, 2)) src.set("nonul", r.chance(1, 2) ? 1000000 : 5000 + r.below(6000));
 		p.world.push_back(src);
 		static const char* PF[] = {"u8", "i8", "u16", "i16", "u32", "i32", "u64", "i64"};
 		size_t nrec = c13 ? 0 : r.below(5);
